@@ -207,6 +207,12 @@ class Check:
         os.makedirs(REPLAYS, exist_ok=True)
         self.work = os.path.join(WORK, pid)
         os.makedirs(self.work, exist_ok=True)
+        for fn in os.listdir(REPLAYS):          # replays of earlier runs of this property are stale
+            if fn.startswith(pid + "-"):
+                try:
+                    os.remove(os.path.join(REPLAYS, fn))
+                except OSError:
+                    pass
         self.known = [k for k in load_known() if k.get("property") == pid]
 
     # ------------------------------------------------------------------ logging
